@@ -11,6 +11,7 @@ import (
 	txn "github.com/xuperchain/xupercore/bcs/ledger/xledger/tx"
 	pb "github.com/xuperchain/xupercore/bcs/ledger/xledger/xldgpb"
 	"github.com/xuperchain/xupercore/kernel/contract"
+	aclu "github.com/xuperchain/xupercore/kernel/permission/acl/utils"
 	"github.com/xuperchain/xupercore/protos"
 )
 
@@ -120,7 +121,8 @@ func SignTx(tx *pb.Transaction, signers []*Key, xuperSign bool) error {
 				return err
 			}
 			si := &protos.SignatureInfo{PublicKey: k.PubJSON, Sign: sig}
-			if i == 0 {
+			if i == 0 || aclu.IsAccount(tx.Initiator) == 1 {
+				// an account initiator is authenticated by the signatures of its members
 				tx.InitiatorSigns = append(tx.InitiatorSigns, si)
 			}
 			if i < len(tx.AuthRequire) {
